@@ -146,7 +146,7 @@ def pipeline(spec, pid, tier, seed, replay, keep, t0, no_evidence):
         timings.update(st.timings)
         # ---- translate + prove (serialised across concurrent checks) ----
         t = time.time()
-        with leanp.LeanLock():
+        with leanp.LeanLock(pid):
             gen_info = {}
             if getopt(spec, "GEN", None):
                 sys.path.insert(0, VERIF)
